@@ -126,3 +126,7 @@ Definition quad_row_ok (c : list Q) (r : list Q * nat) : bool :=
   forallb (fun k => Qeq_bool (dotq (fst r) (map (fun x => qpow x (k - 1)) c) * inject_Z (Z.of_nat k)) 1)
           (seq 1 (snd r)).
 Definition quad_ok (t : tableau) : bool := forallb (quad_row_ok (t_c t)) (rows t).
+
+(* bushy tree with n leaves under the root (n+1 vertices), and the all-ones vector of a matrix *)
+Fixpoint bushy (n : nat) : bt := match n with O => Tau | S n' => Gr (bushy n') Tau end.
+Definition ones (a : list (list Q)) : list Q := map (fun _ => 1) a.
